@@ -1,7 +1,9 @@
 from .. import cases
-from .common import run_tables
+from .common import run_carrier_sweep, run_tables
 
 
 def run(ck):
     run_tables(ck, 'C10.rate_of_change', cases.rate_of_change)
     run_tables(ck, 'C10.speed', cases.speed)
+    run_carrier_sweep(ck, 'C10.rate_of_change', cases.rate_of_change)
+    run_carrier_sweep(ck, 'C10.speed', cases.speed)
